@@ -37,9 +37,17 @@ ListMembers == IF Tier = "small" THEN {<<"a">>, <<".c">>, <<"a", ">", "b">>}
                ELSE IF Tier = "quick" THEN {<<"a">>, <<".c">>, <<"a", ".c">>, <<"a", ">", "b">>}
                ELSE {<<"a">>, <<".c">>, <<"a", ".c">>, <<"a", ">", "b">>, <<"a", "sp", "b">>, <<":not(", ".c", ")">>}
 
+(* a second block of the table: selectors of up to 5 compounds with repeated names - a seed with an explicit *)
+(* combinator above a descendant combinator, and ancestors added at that descendant combinator             *)
+DeepSeeds == {<<"a", ">", "b">>, <<"a", "~", "b">>, <<"a", "+", "b">>, <<"e", "sp", "a", "+", "b">>, <<"a", "sp", "b">>}
+DeepMids  == {<<>>, <<"e">>, <<"b">>, <<"e", "sp", "b">>, <<"b", "sp", "e">>, <<"e", ">", "b">>, <<"b", ">", "e">>}
+            \cup (IF Tier = "thorough" THEN {<<"e", "sp", "b", "sp", "e">>, <<"b", "sp", "b">>, <<"a", ">", "b">>, <<"e", "~", "b">>} ELSE {})
+Deep == {s \o (IF m = <<>> THEN <<>> ELSE <<"sp">> \o m) \o <<"sp", ".c">> : s \in DeepSeeds, m \in DeepMids}
+
 Complexes == Compounds \cup {x \o <<c>> \o y : x \in Core, c \in Combs, y \in Core} \cup Extras
 Lists     == {p[1] \o <<",">> \o p[2] : p \in {p \in ListMembers \X ListMembers : p[1] # p[2]}}
-Universe  == Complexes \cup Lists
+Main      == Complexes \cup Lists
+Universe  == Main \cup Deep
 
 SX == INSTANCE SequencesExt
 USeq == SX!SetToSeq(Universe)      \* (TLC module override: the elements in TLC's normal order)
@@ -51,7 +59,8 @@ Idx(toks) == IF toks \in Universe THEN CHOOSE i \in 1..N : USeq[i] = toks ELSE 0
 Adds     == {<<"a">>, <<"*">>, <<".c">>, <<".d">>, <<".e">>, <<"#i">>, <<"[x]">>, <<"[x=y]">>, <<":hover">>, <<":focus">>,
              <<":is(", ".c", ")">>, <<":not(", ".c", ")">>, <<":not(", ".d", ")">>}
 Prefixes == {<<"e">>, <<".e">>, <<"a", ".c">>, <<"*">>, <<":not(", ".c", ")">>, <<"e", "sp", "f">>, <<"e", ">", "f">>, <<"e", "+", "f">>, <<"e", "~", "f">>}
-DeriveOf(i) == UNION {DeriveComplexSet(P[i][m], Adds, Prefixes) : m \in 1..Len(P[i])}
+Infixes  == {<<"e">>, <<"e", "sp", "b">>, <<"b", ">", "e">>}
+DeriveOf(i) == UNION {DeriveComplexSet(P[i][m], Adds, Prefixes, Infixes) : m \in 1..Len(P[i])}
                \cup (IF Len(P[i]) > 1 THEN {P[i][m] : m \in 1..Len(P[i])} ELSE {})
 DeriveToks(i) == {ToksComplex(d) : d \in DeriveOf(i)}
 
@@ -79,7 +88,9 @@ SelQ(z) == {Q("sel", i, 0, USeq[i], E, E, E, "str", "str") : i \in 1..N}
 
 Forms == {<<"str", "list">>, <<"list", "str">>, <<"list", "list">>}
 Q23(z) == SelQ(z)
-  \cup {Q("super", i, j, USeq[i], USeq[j], E, E, "str", "str") : i \in 1..N, j \in 1..N}
+  (* the table: every ordered pair inside the main block and inside the deep block *)
+  \cup {Q("super", p[1], p[2], USeq[p[1]], USeq[p[2]], E, E, "str", "str") :
+           p \in {p \in (1..N) \X (1..N) : (USeq[p[1]] \in Main /\ USeq[p[2]] \in Main) \/ (USeq[p[1]] \in Deep /\ USeq[p[2]] \in Deep)}}
   \cup {Q("super", i, i, USeq[i], USeq[i], E, E, f[1], f[2]) : i \in 1..N, f \in Forms}
   \cup UNION {{Q("super", i, Idx(d), USeq[i], d, E, E, "str", "str") : d \in DeriveToks(i)} : i \in 1..N}
   \cup UNION {{Q("super", i, Idx(d), USeq[i], d, E, E, "list", "list") : d \in DeriveToks(i)} : i \in {i \in 1..N : Tier = "thorough" \/ USeq[i] \in Compounds \cup Extras}}
@@ -93,13 +104,14 @@ NestPool == Compounds \cup Extras \cup Lists \cup AmpForms
 Suffixes == {<<".c">>, <<".d">>, <<"#i">>, <<"[x]">>, <<":hover">>, <<"::before">>, <<":not(", ".c", ")">>, <<":is(", ".c", ")">>,
              <<"-x">>, <<".c", ".d">>, <<".c", ":hover">>}
 
+MainIdx == {i \in 1..N : USeq[i] \in Main}        \* C24 takes its operands from the main block
 Q24(z) == SelQ(z)
   (* the unify law is symmetric in its operands: unordered pairs *)
-  \cup {Q("unify", p[1], p[2], USeq[p[1]], USeq[p[2]], E, E, "str", "str") : p \in {p \in (1..N) \X (1..N) : p[1] <= p[2]}}
-  \cup {Q("extend", i, 0, USeq[i], E, x, y, "str", "str") : i \in 1..N, x \in XPool, y \in YPool}
-  \cup {Q("replace", i, 0, USeq[i], E, x, y, "str", "str") : i \in 1..N, x \in XPool, y \in YPool}
-  \cup {Q("nest", i, 0, USeq[i], b, E, E, "str", "str") : i \in 1..N, b \in NestPool}
-  \cup {Q("append", i, 0, USeq[i], b, E, E, "str", "str") : i \in 1..N, b \in Suffixes}
+  \cup {Q("unify", p[1], p[2], USeq[p[1]], USeq[p[2]], E, E, "str", "str") : p \in {p \in MainIdx \X MainIdx : p[1] <= p[2]}}
+  \cup {Q("extend", i, 0, USeq[i], E, x, y, "str", "str") : i \in MainIdx, x \in XPool, y \in YPool}
+  \cup {Q("replace", i, 0, USeq[i], E, x, y, "str", "str") : i \in MainIdx, x \in XPool, y \in YPool}
+  \cup {Q("nest", i, 0, USeq[i], b, E, E, "str", "str") : i \in MainIdx, b \in NestPool}
+  \cup {Q("append", i, 0, USeq[i], b, E, E, "str", "str") : i \in MainIdx, b \in Suffixes}
 
 (* operators with a parameter: TLC evaluates every constant definition at start-up, whatever the mode *)
 Queries(z) == IF Mode = "c23" THEN Q23(z) ELSE IF Mode = "c24" THEN Q24(z) ELSE {Q("ref", 0, 0, E, E, E, E, "str", "str")}
